@@ -114,7 +114,7 @@ def make_tensor(case, rng):
         d = len(sites)
         p = [rows[i] * cols[i] for i in range(d)]
         J = min(p)
-        w = [2.0, 2.0, 1.0, 1.0][:J]
+        w = ([2.0, 2.0, 1.0, 1.0] * 4)[:J]
         t = np.zeros(p, dtype=complex if c else float)
         for j in range(J):
             t[tuple([j] * d)] = w[j] * ((1j) ** j if c else 1.0)
@@ -236,7 +236,7 @@ def run_case(case, seed):
         r.outcome = 'truncated' if r.nontrivial else 'exact'
         if bounded:
             err = np.linalg.norm((dn(T) - x).ravel())
-            slack = (1e-10 if case['fam'] != 'deep' else 1e-13) * max(1.0, nx)
+            slack = (1e-10 if case['fam'] != 'deep' else 2e-12) * max(1.0, nx)
             if thr == 0:
                 # (ii) quasi-optimality with the requested caps
                 bound = np.sqrt(sum(tail(k, caps[k]) for k in range(1, d)))
